@@ -23,7 +23,9 @@ CONSTANTS Clients,      \* e.g. {1, 2}
           MaxExt,       \* environment actions per behaviour (bounded exploration)
           MaxRaces      \* how many calls/client actions may start while the mux is still busy with earlier ones
 
-AllBehaviours == {"known", "unknown", "late", "garbage", "nonbinding", "nouser", "oversize", "silent", "earlyclose"}
+AllBehaviours == {"known", "unknown", "late", "garbage", "nonbinding", "nouser", "oversize", "silent", "stalled", "earlyclose"}
+\* "stalled": the client writes the length prefix and a part of the frame, and nothing more: no frame ever arrives (like "silent" at
+\* the grain of frames; the mux reads bytes, and its first-frame deadline has to cover all of them)
 Valid == {"known", "unknown", "late"}       \* "late": like "known", but the first frame is not written when connecting
 Ufrags == {"u1", "u9"}                 \* u1: the ufrag the application asks for; u9: nobody asked (yet)
 UfragOf(b) == IF b = "unknown" THEN "u9" ELSE "u1"
@@ -33,7 +35,7 @@ WithV6 == TRUE
 K6(u) == u \o "/6"
 MKeys == Ufrags \cup (IF WithV6 THEN {K6(u) : u \in Ufrags} ELSE {})
 \* frames a client sends, by behaviour: frame 1 is the first frame, later ones are data packets
-NFrames(b) == IF b \in Valid THEN 1 + MaxLater ELSE IF b \in {"silent", "earlyclose"} THEN 0 ELSE 1
+NFrames(b) == IF b \in Valid THEN 1 + MaxLater ELSE IF b \in {"silent", "stalled", "earlyclose"} THEN 0 ELSE 1
 Ids == 1..MaxPc
 NoPc == [uf |-> "", prov |-> FALSE, timer |-> 0, closed |-> FALSE, rclosed |-> FALSE, q |-> <<>>, conns |-> {}]
 Slots == {"cl", "rm"} \cup {"w" \o ToString(i) : i \in Ids} \cup {"t" \o ToString(i) : i \in Ids}
